@@ -93,7 +93,7 @@ void remove_from_missing_list(int element, int *missing_list);
 
 int* get_symbols_needed(xor_code_t *code_desc, int *missing_list, int *fragments_to_exclude);
 
-void xor_reconstruct_one(xor_code_t *code_desc, char **data, char **parity, int *missing_idxs, int index_to_reconstruct, int blocksize);
+int xor_reconstruct_one(xor_code_t *code_desc, char **data, char **parity, int *missing_idxs, int index_to_reconstruct, int blocksize);
 
 xor_code_t* init_xor_hd_code(int k, int m, int hd);
 
